@@ -1,6 +1,7 @@
 import SJ.Proofs.Tables
 import SJ.Proofs.BlockScan
 import SJ.Generated.Consts
+import SJ.Generated.Stage2Table
 /-
 C08 — ParseND equals parsing each non-blank line.
 -/
@@ -20,5 +21,16 @@ theorem C08_stage1_nd (avx512 : Bool) (msg : Bytes) : stage1 true msg = SJ.Block
   SJ.Block.stage1_eq_blocks avx512 true msg
 /-- index buffers made of newline entries need the same head room -/
 theorem C08_buffer_bound : Generated.cindexSizeWithSafetyBuffer + 64 + 64 ≤ Generated.cindexSize := by decide
+
+
+/-- The two ND-specific states of stage 2, as regenerated from `unifiedMachine`: after a root value only LF is
+    accepted (`startContinue`); then further LFs are skipped and the next `{` / `[` closes the current root, opens a
+    new one and dispatches — nothing else is accepted between documents. -/
+theorem C08_nd_states :
+    Generated.stage2Sites.getD 1 [] = [([10], [], some 2)] ∧
+    Generated.stage2Sites.getD 2 [] =
+      [([10], [], some 2),
+       ([91], ["reopenRoot", "push:retAddressStartConst", "write:["], some 8),
+       ([123], ["reopenRoot", "push:retAddressStartConst", "write:{"], some 3)] := by decide
 
 end SJ.Properties.C08
